@@ -322,8 +322,41 @@ def judge_patch(job):
                     out['samples'].append({'patch': lines, 'equivalent': S.render_def(equiv[-1])})
             finally:
                 shutil.rmtree(res.outdir, ignore_errors=True)
+        # the same rules applied to the prophy-text front-end (its nodes carry resolved definitions before the patch runs):
+        # the model layout must be that of the equivalent schema
+        Big = S.Struct('Big', [M('w', 'u64'), M('v', 'u64')])
+        base2 = [PATCH_BASE[0], Big, S.Struct('X', [M('n', 'u8'), M('f', 'F'), M('t', 'u8')])]
+        text_cases = [(PATCH_BASE, lines, equiv) for lines, equiv in applicable_rules()
+                      if not any(l.split()[1] in ('struct',) or l.endswith(' byte') for l in lines)]
+        text_cases.append((base2, ['X type f Big'], [PATCH_BASE[0], Big, S.Struct('X', [M('n', 'u8'), M('f', 'Big'), M('t', 'u8')])]))
+        text_cases.append((base2, ['X type f u64'], [PATCH_BASE[0], Big, S.Struct('X', [M('n', 'u8'), M('f', 'u64'), M('t', 'u8')])]))
+        for base, lines, equiv in text_cases:
+            out['cases'] += 1
+            d = T.fresh_dir('c17t')
+            try:
+                pf = os.path.join(d, 'patch.txt')
+                with open(pf, 'w') as f:
+                    f.write('\n'.join(lines) + '\n')
+                r = T.compile_text(S.render_prophy(base), outs=('python', 'cpp_full'), extra=['-p', pf], workdir=d, name='mt')
+                e = T.compile_text(S.render_prophy(equiv), outs=('python',), name='me')
+                art = {'patch_case': True, 'xml': S.render_prophy(base), 'patch': lines, 'equivalent': S.render_prophy(equiv)}
+                if not r.ok or not e.ok:
+                    if e.ok:
+                        viol('text-patch-fails|%s' % lines[0].split()[1], dict(art, detail='%s: %s' % (r.exc_type, str(r.exc)[:200])))
+                    continue
+                nb = dict((n.name, n) for n in r.nodes['mt'])
+                ne = dict((n.name, n) for n in e.nodes['me'])
+                for dd in equiv:
+                    x, y = ne[dd.name], nb.get(dd.name)
+                    if y is None or (x.byte_size, x.alignment, x.kind) != (y.byte_size, y.alignment, y.kind):
+                        viol('text-patch-layout-differs|%s' % lines[0].split()[1],
+                             dict(art, detail='%s: equivalent %s, text+patch %s' % (dd.name, (x.byte_size, x.alignment, x.kind),
+                                                                                    y and (y.byte_size, y.alignment, y.kind))))
+                        break
+                shutil.rmtree(e.outdir, ignore_errors=True)
+            finally:
+                shutil.rmtree(d, ignore_errors=True)
         # two inputs of one run that both define a message of the patched name: each gets the rules, as when compiled alone
-        import os
         two = {'a.xml': '<xml><struct name="X"><member name="n" type="u32"/><member name="b" type="u16"/></struct></xml>',
                'b.xml': '<xml><struct name="X"><member name="n" type="u32"/><member name="k" type="u8"/><member name="b" type="u16"/></struct></xml>'}
         for lines in (['X static b 3'], ['X insert 0 z u8', 'X rename b c'], ['X type b u64']):
